@@ -345,8 +345,96 @@ func (r *rewriter) decide(f *ast.File) {
 
 func (r *rewriter) count(rule string) { r.rules[rule]++ }
 
+// syncState reports whether a value of type t holds synchronisation state that
+// must not leak from one explored execution into the next.
+func syncState(t types.Type, depth int) bool {
+	if depth > 4 {
+		return false
+	}
+	switch u := t.(type) {
+	case *types.Named:
+		if o := u.Obj(); o != nil && o.Pkg() != nil && (o.Pkg().Path() == "sync" || o.Pkg().Path() == "sync/atomic") {
+			return true
+		}
+		return syncState(u.Underlying(), depth+1)
+	case *types.Chan:
+		return true
+	case *types.Struct:
+		for i := 0; i < u.NumFields(); i++ {
+			if syncState(u.Field(i).Type(), depth+1) {
+				return true
+			}
+		}
+	case *types.Array:
+		return syncState(u.Elem(), depth+1)
+	case *types.Pointer:
+		// a package-level *sync.X / *T{sync.X}: reset when it has an initialiser to re-evaluate
+		return syncState(u.Elem(), depth+1)
+	}
+	return false
+}
+
+// globals finds the package-level variables that hold synchronisation state.
+func (r *rewriter) globals(f *ast.File) (specs []*ast.ValueSpec) {
+	for _, d := range f.Decls {
+		gd, ok := d.(*ast.GenDecl)
+		if !ok || gd.Tok != token.VAR {
+			continue
+		}
+		for _, sp := range gd.Specs {
+			vs := sp.(*ast.ValueSpec)
+			hit := false
+			for _, n := range vs.Names {
+				if o := r.info.Defs[n]; o != nil && n.Name != "_" && syncState(o.Type(), 0) {
+					hit = true
+				}
+			}
+			if !hit {
+				continue
+			}
+			if len(vs.Values) != 0 && len(vs.Values) != len(vs.Names) {
+				fail(r.fset, vs.Pos(), "package-level variables with synchronisation state initialised from a multi-value expression")
+				continue
+			}
+			if len(vs.Values) == 0 && vs.Type == nil {
+				continue
+			}
+			specs = append(specs, vs)
+		}
+	}
+	return specs
+}
+
+// resetGlobals appends an init function that registers, for each of the given
+// (already rewritten) variable specs, a function restoring the initial value.
+func (r *rewriter) resetGlobals(f *ast.File, specs []*ast.ValueSpec) {
+	var body []ast.Stmt
+	for _, vs := range specs {
+		for i, n := range vs.Names {
+			if n.Name == "_" {
+				continue
+			}
+			var val ast.Expr
+			if len(vs.Values) > 0 {
+				val = vs.Values[i]
+			} else {
+				val = &ast.StarExpr{X: &ast.CallExpr{Fun: ast.NewIdent("new"), Args: []ast.Expr{vs.Type}}}
+			}
+			r.count("R5.global-reset")
+			body = append(body, &ast.AssignStmt{Lhs: []ast.Expr{ast.NewIdent(n.Name)}, Tok: token.ASSIGN, Rhs: []ast.Expr{val}})
+		}
+	}
+	if len(body) == 0 {
+		return
+	}
+	reset := &ast.FuncLit{Type: &ast.FuncType{Params: &ast.FieldList{}}, Body: &ast.BlockStmt{List: body}}
+	f.Decls = append(f.Decls, &ast.FuncDecl{Name: ast.NewIdent("init"), Type: &ast.FuncType{Params: &ast.FieldList{}},
+		Body: &ast.BlockStmt{List: []ast.Stmt{&ast.ExprStmt{X: &ast.CallExpr{Fun: mcSel("RegisterGlobal"), Args: []ast.Expr{reset}}}}}})
+}
+
 func (r *rewriter) file(f *ast.File) {
 	r.decide(f)
+	globals := r.globals(f)
 	astutil.Apply(f, nil, func(c *astutil.Cursor) bool {
 		switch n := c.Node().(type) {
 		case *ast.ChanType:
@@ -411,6 +499,7 @@ func (r *rewriter) file(f *ast.File) {
 		}
 		return true
 	})
+	r.resetGlobals(f, globals)
 	if len(r.rules) == 0 {
 		return
 	}
